@@ -80,6 +80,9 @@ def check(ctx):
         for fam in FAMILIES:
             for mode in MODES:
                 check_kernel(ctx, KE, fam, mode, backend, outputs=("MXX", "MYY"), rule="R4-mean-segment-power")
+    # each channel's statistic is computed from that channel's own samples: no gather buffer is refilled while an earlier result in it is live
+    from ..effects import check_scratch_reuse
+    check_scratch_reuse(ctx, rule="R6-channel-buffers-not-clobbered")
     # the window sums stored with the result are (sum w)^2 and sum w^2 of the window of that very length, on both analysis paths
     from ..dispatch import check_assembly, check_single_fields
     check_assembly(ctx, rule="R5-stored-window-sums", only=("S12", "S2"))
